@@ -165,6 +165,96 @@ m("C20", "container/parquet.py", "rs.data.batch(batch_size=batch_size),", "rs.da
 m("C20", "container/parquet.py", "        columns_type = [t for t in schema.types]\n\n        def _create_record(data):\n            columns_data = [ [] for n in columns_name]\n", "        columns_type = [t for t in schema.types]\n        columns_data = [ [] for n in columns_name]\n\n        def _create_record(data):\n", "fire", ["PU-2"], "the repaired defect")
 
 
+def apply_unified_diff(patch_text, read_file):
+    """Apply a unified diff (as written by git diff) in memory.  Returns {relpath: new source} or None
+    if a hunk does not match the current text exactly."""
+    import re
+    out = {}
+    cur = None
+    lines = patch_text.splitlines()
+    k = 0
+    while k < len(lines):
+        ln = lines[k]
+        if ln.startswith("+++ "):
+            path = ln[4:].strip()
+            if path.startswith("b/"):
+                path = path[2:]
+            cur = path
+            src = read_file(cur)
+            if src is None:
+                return None
+            out[cur] = {"old": src.split("\n"), "new": [], "pos": 0}
+            k += 1
+            continue
+        mobj = re.match(r"^@@ -(\d+)(?:,(\d+))? \+(\d+)(?:,(\d+))? @@", ln)
+        if mobj and cur is not None:
+            start = int(mobj.group(1)) - 1
+            st = out[cur]
+            if start < st["pos"]:
+                return None
+            st["new"] += st["old"][st["pos"]:start]
+            st["pos"] = start
+            k += 1
+            while k < len(lines) and not lines[k].startswith("@@") and not lines[k].startswith("diff --git") and not lines[k].startswith("--- "):
+                h = lines[k]
+                if h.startswith("\\"):
+                    k += 1
+                    continue
+                tag, body = (h[:1], h[1:]) if h else (" ", "")
+                if tag == " ":
+                    if st["pos"] >= len(st["old"]) or st["old"][st["pos"]] != body:
+                        return None
+                    st["new"].append(body)
+                    st["pos"] += 1
+                elif tag == "-":
+                    if st["pos"] >= len(st["old"]) or st["old"][st["pos"]] != body:
+                        return None
+                    st["pos"] += 1
+                elif tag == "+":
+                    st["new"].append(body)
+                k += 1
+            continue
+        k += 1
+    res = {}
+    for path, st in out.items():
+        st["new"] += st["old"][st["pos"]:]
+        res[path] = "\n".join(st["new"])
+    return res
+
+
+def _run_seed(args):
+    """One independently seeded change (seeded/<id>/patch.diff) applied in memory; the property's own check must report it."""
+    seed_dir, prop, repo = args
+    from . import props
+    from .engine import Ctx
+    sid = os.path.basename(seed_dir.rstrip("/"))
+    try:
+        with open(os.path.join(seed_dir, "patch.diff")) as f:
+            patch = f.read()
+        base = Program(repo)
+        files = apply_unified_diff(patch, lambda rel: base.by_relpath[rel].src if rel in base.by_relpath else None)
+        if not files:
+            return dict(id="seed-" + sid, status="skipped", detail="patch does not apply to the current tree", expect="fire", note="seeded change " + sid)
+        prog = base
+        for rel, src in files.items():
+            prog = prog.overlay(rel, src)
+    except SyntaxError as e:
+        return dict(id="seed-" + sid, status="skipped", detail="variant does not parse: %s" % e, expect="fire", note="seeded change " + sid)
+    fired, err = [], None
+    try:
+        ctx = Ctx(program=prog, tier="quick")
+        for rule in props.rules_for(prop):
+            res = rule(ctx)
+            for r in (res if isinstance(res, list) else [res]):
+                fired += [f.rule for f in r.findings]
+    except AnalysisError as e:
+        err = str(e)
+    except Exception as e:
+        err = "internal error: %r" % (e,)
+    status = "ok" if fired else ("cannot-analyse" if err else "MISSED")
+    return dict(id="seed-" + sid, status=status, fired=sorted(set(fired)), error=err, expect="fire", note="independently seeded change " + sid, rel=",".join(files))
+
+
 def _run_one(args):
     entry, repo = args
     from . import props
@@ -205,13 +295,18 @@ def _run_one(args):
 
 def run_selftest(prop, repo=None, jobs=None):
     entries = [e for e in M if e["prop"] == prop]
-    if not entries:
-        return dict(variants=0, results=[])
     repo = repo or os.environ.get("RXSA_REPO", "/repo")
     jobs = jobs or min(16, len(entries), os.cpu_count() or 1)
+    seeded_root = os.path.join(os.path.dirname(os.path.dirname(os.path.abspath(__file__))), "seeded")
+    seeds = []
+    if os.path.isdir(seeded_root):
+        for d in sorted(os.listdir(seeded_root)):
+            if d.startswith(prop) and os.path.isfile(os.path.join(seeded_root, d, "patch.diff")):
+                seeds.append((os.path.join(seeded_root, d), prop, repo))
+    jobs = min(16, len(entries) + len(seeds), os.cpu_count() or 1)
     with ProcessPoolExecutor(max_workers=jobs) as ex:
-        results = list(ex.map(_run_one, [(e, repo) for e in entries]))
+        results = list(ex.map(_run_one, [(e, repo) for e in entries])) + list(ex.map(_run_seed, seeds))
     summary = {}
     for r in results:
         summary[r["status"]] = summary.get(r["status"], 0) + 1
-    return dict(variants=len(entries), summary=summary, results=results)
+    return dict(variants=len(entries) + len(seeds), summary=summary, results=results)
